@@ -212,7 +212,7 @@ def angle_vec(rng, twod, kind):
 
 def make(e, rng, cname, mode):
     """A transform of class cname whose non-zero natural parameters lie in the class's own index set."""
-    t = e.cls[cname]()
+    t = e.cls[cname](radius=int(rng.choice([100, 64, 25])))
     inds = set(t.param_inds)
     twod = cname.endswith("2D")
     v = np.zeros(12)
@@ -484,8 +484,8 @@ def check_compose(ck, e, T, rng, a, b, mode, tag):
 
 
 def sec_compose(ck, e, T, rng):
-    per = ck.n(4, 30)
-    modes = ["quarter"] * per + ["any"] * per + ["near0"] * max(1, per // 2) + ["nearpi"] * max(1, per // 2)
+    per = ck.n(2, 30)
+    modes = ["quarter"] * (per + 1) + ["any"] * per + ["near0"] * max(1, per // 2) + ["nearpi"] * max(1, per // 2)
     n = 0
     for na, nb in itertools.product(CLASSES, CLASSES):
         for mode in modes:
@@ -664,6 +664,14 @@ def sec_param(ck, e, T, rng):
             q = np.array(t.param, dtype=float)
             if not close(q, p, 0 if exact else 1e-12):
                 ck.fail("param/set-then-get", "%s(radius=%d): param read back %s after assigning %s" % (cname, radius, q.tolist(), p.tolist()), replay)
+            if cname.endswith("2D"):
+                # in-plane classes: a transform set through `param` maps the plane z = 0 onto itself
+                xy = pts(rng)
+                xy[:, 2] = 0.0
+                t2 = e.cls[cname](radius=radius)
+                t2.param = p
+                if float(np.max(np.abs(t2.apply(xy)[:, 2]))) > 1e-9:
+                    ck.fail("param/2D-class-leaves-plane", "%s with param %s moves points of the plane z = 0 out of it" % (cname, p.tolist()), replay)
             others = [k for k in range(12) if k not in set(t.param_inds) | ({6, 7, 8} if cname.startswith("Similarity") else set())]
             if not np.array_equal(v1[others], v0[others]):
                 ck.fail("param/set-touches-foreign-slots", "%s: assigning param changed slots outside param_inds" % cname, replay)
@@ -678,7 +686,7 @@ def sec_param(ck, e, T, rng):
 
 def sec_chain(ck, e, T, rng):
     from nipy.algorithms.registration.chain_transform import ChainTransform
-    N = ck.n(40, 400)
+    N = ck.n(24, 400)
     n = 0
     for i in range(N):
         mode = ["quarter", "any", "nearpi", "near0"][i % 4]
@@ -734,7 +742,7 @@ def sec_chain(ck, e, T, rng):
     if not close(ChainTransform(a).apply(x), a.apply(x)):
         ck.fail("chain/default-pre-post", "ChainTransform(t).apply differs from t.apply", {"vec12": a._vec12.tolist()})
     # longer compose / inv chains
-    L = ck.n(30, 300)
+    L = ck.n(20, 300)
     for i in range(L):
         mode = "quarter" if i % 3 == 0 else "any"
         k = int(rng.integers(2, 6))
@@ -805,6 +813,9 @@ def sec_generic(ck, e, rng):
         b2 = make(e, rng, "Rigid", "any")
         if not close(Pb.compose(b2).apply(x), P.apply(b.apply(b2.apply(x))), 1e-8):
             ck.fail("polyaffine/compose-twice", "PolyAffine composed twice loses the first global affine", rp)
+        # the bookkeeping of polyaffine_compose_apply: glob' = A, then G.A
+        if not (close(Pb.glob_affine, b.as_affine(), 1e-12) and close(Pb.compose(b2).glob_affine, b.as_affine() @ b2.as_affine(), 1e-12)):
+            ck.fail("polyaffine/glob-affine-bookkeeping", "PolyAffine.compose does not set glob_affine to G.A", rp)
         if not np.allclose(np.array(Pb.affines()), np.array(P.affines()), atol=0, rtol=0):
             ck.fail("polyaffine/compose-changes-local-affines", "compose changed the local affines", rp)
         if not close(P.compose(tg).apply(x), P.apply(g(x)), 1e-8):
@@ -854,7 +865,7 @@ def run(ck):
     ck.assume += ["translations within MAX_DIST and log-scales within LOG_MAX_DIST (thresholds are part of the oracle-evaluated view)",
                   "matrices handed to from_matrix44 are non-singular with singular values in [1e-10, 1e10]"]
     if ck.build is not None and ck.build.ok:
-        res = ck.coq_bools(HDR, T.terms, shard=150)
+        res = ck.coq_bools(HDR, T.terms, shard=ck.n(90, 250))
         ck.cov["traces_validated_against_impl"] += len(res)
         nexact = sum(1 for m in T.meta if m[3])
         ck.section("correspondence", terms=len(res), exact_terms=nexact, cases_without_model_literal=T.skipped, disagreements=sum(1 for r in res if not r))
